@@ -225,7 +225,7 @@ Section Main.
 
   Lemma Inv_upd_held s eh v : Inv F s -> (forall l, v = Some l -> held_ok F eh l) -> Inv F (upd_held s eh v).
   Proof.
-    intros [I1 I2 I3 I4 I5 I6 I7 I8 I9 I10 I11 I12] Hv. unfold upd_held. constructor; scbn; auto.
+    intros [I1 I2 I3 I4 I5 I6 I7 I8 I9 I10 I11 I12 I13] Hv. unfold upd_held. constructor; scbn; auto.
     intros eh' l H. destruct eh, eh'; unfold held in H; cbn [cfis set_cfis fst snd] in H;
       try (apply Hv; exact H); apply I12; exact H.
   Qed.
@@ -380,7 +380,7 @@ Section Main.
     destruct Hmap as (c1 & E1 & L1).
     set (s1 := set_cur (set_secmap s (Some (secmap_spec F))) c1) in *.
     assert (HI1 : Inv F s1).
-    { destruct HI as [I1 I2 I3 I4 I5 I6 I7 I8 I9 I10 I11 I12]. unfold s1. constructor; scbn; auto; [congruence|]. intros m E. congruence. }
+    { destruct HI as [I1 I2 I3 I4 I5 I6 I7 I8 I9 I10 I11 I12 I13]. unfold s1. constructor; scbn; auto; [congruence|]. intros m E. congruence. }
     assert (X1 : ext s s1) by ext_triv.
     destruct (dict_get Z.eqb (secmap_spec F) name) as [i|] eqn:Hg.
     - pose proof (secmap_spec_in F WFe fuel Hfd _ _ Hg) as Hin.
@@ -457,7 +457,7 @@ Section Main.
     destruct Hmap as (c1 & E1 & L1).
     set (s1 := set_cur (set_symmap s (Some (symmap_spec F))) c1) in *.
     assert (HI1 : Inv F s1).
-    { destruct HI as [I1 I2 I3 I4 I5 I6 I7 I8 I9 I10 I11 I12]. unfold s1. constructor; scbn; auto; [congruence|]. intros m E. congruence. }
+    { destruct HI as [I1 I2 I3 I4 I5 I6 I7 I8 I9 I10 I11 I12 I13]. unfold s1. constructor; scbn; auto; [congruence|]. intros m E. congruence. }
     assert (X1 : ext s s1) by ext_triv.
     destruct (dict_get Z.eqb (symmap_spec F) name) as [[|i0 l]|] eqn:Hg.
     - eapply query_finish with (s' := s1) (r := Ok ANone); qf.
@@ -494,7 +494,7 @@ Section Main.
 
   Lemma Inv_numtags s nt c : Inv F s -> count_tags (f_dyns F) = Some nt -> length c = length (cur s) ->
     Inv F (set_cur (set_numtags s nt) c).
-  Proof. intros [I1 I2 I3 I4 I5 I6 I7 I8 I9 I10 I11 I12] Hc Hl. constructor; scbn; auto. congruence. Qed.
+  Proof. intros [I1 I2 I3 I4 I5 I6 I7 I8 I9 I10 I11 I12 I13] Hc Hl. constructor; scbn; auto. congruence. Qed.
 
   Lemma numtags_state s nt : Inv F s -> count_tags (f_dyns F) = Some nt -> e_numtags s = -1 \/ e_numtags s = nt.
   Proof. intros HI Hc. destruct (inv_numtags _ _ HI) as [E|E]; [auto|right; congruence]. Qed.
